@@ -1,0 +1,45 @@
+//go:build verif
+
+package html
+
+// Contracts for gvc (the /verif condition generator). Comment-only: nothing here is compiled
+// into the library; the file exists only under the build tag "verif".
+
+/*@
+// ---- dangerous URLs (C04) ----
+fun lower(c int) int = ((c >= 'A' && c <= 'Z') ? c + 32 : c)
+// ciPrefix(u, lit): u begins, case-insensitively, with the (lower-case ASCII) literal lit
+macro ciPrefix(u, lit) = len(u) >= len(lit) && (forall k int :: 0 <= k && k < len(lit) ==> lower(u[k]) == lit[k])
+macro allowedImage(u) = ciPrefix(u, "data:image/") && (ciPrefix(u[11:], "png;") || ciPrefix(u[11:], "gif;") ||
+    ciPrefix(u[11:], "jpeg;") || ciPrefix(u[11:], "webp;") || ciPrefix(u[11:], "svg+xml;"))
+// dangerous(u): the property's own list - javascript:, vbscript:, file:, and data: other than the allowed image types
+macro dangerous(u) = ciPrefix(u, "javascript:") || ciPrefix(u, "vbscript:") || ciPrefix(u, "file:") || (ciPrefix(u, "data:") && !allowedImage(u))
+
+macro isLit(b, lit) = len(b) == len(lit) && (forall k int :: 0 <= k && k < len(lit) ==> b[k] == lit[k])
+axiom urlPrefixes: isLit(bDataImage, "data:image/") && isLit(bPng, "png;") && isLit(bGif, "gif;") && isLit(bJpeg, "jpeg;") &&
+    isLit(bWebp, "webp;") && isLit(bSvg, "svg+xml;") && isLit(bJs, "javascript:") && isLit(bVb, "vbscript:") &&
+    isLit(bFile, "file:") && isLit(bData, "data:")
+
+// hasPrefix(s, prefix) for an ASCII prefix: exactly the case-insensitive ASCII prefix test
+func hasPrefix
+  requires forall k int :: 0 <= k && k < len(prefix) ==> prefix[k] < 128
+  ensures [complete] (len(s) >= len(prefix) && (forall k int :: 0 <= k && k < len(prefix) ==> (s[k] < 128 && lower(s[k]) == lower(prefix[k])))) ==> result
+  ensures [sound] result ==> (len(s) >= len(prefix) && (forall k int :: 0 <= k && k < len(prefix) ==> (s[k] < 128 && lower(s[k]) == lower(prefix[k]))))
+  modifies nothing
+
+// IsDangerousURL is exactly the property's predicate
+func IsDangerousURL
+  uses urlPrefixes
+  ensures [complete] dangerous(url) ==> result
+  ensures [sound] result ==> dangerous(url)
+  modifies nothing
+
+// the three places that put a URL into href/src: in safe mode the URL that gets escaped and written
+// is never one the property calls dangerous (for e-mail autolinks the href starts with "mailto:")
+func (*Renderer).renderLink
+  callassert [safeHref] util.EscapeHTML#1: r.Unsafe || !dangerous(arg0)
+func (*Renderer).renderImage
+  callassert [safeSrc] util.EscapeHTML#1: r.Unsafe || !dangerous(arg0)
+func (*Renderer).renderAutoLink
+  callassert [safeHref] util.EscapeHTML#1: r.Unsafe || n.AutoLinkType == ast.AutoLinkEmail || !dangerous(arg0)
+@*/
